@@ -308,3 +308,88 @@ void drv_k4_toom(int tier, unsigned long seed, const char *extra) {
     }
   }
 }
+
+/* ------------------------------------------------------------------ k4_fft */
+/* Transforms of length 2n over Z/(2^(nw)+1), n = 2^depth, limbs = n*w/64.  Coefficients are canonical residues as the callers provide them
+   (fft/mul_trunc_sqrt2.c: mpir_fft_split_bits output; tests/fft/t-fft_ifft_*.c: "mpn_normmod_2expp1(ii[i], limbs)" before the transform). */
+static char *arr_json(mp_ptr *ii, long cnt, mp_size_t size) {
+  size_t cap = (size_t)cnt * (16 * size + 8) + 8, o = 0; char *js = malloc(cap); long i;
+  js[o++] = '['; for (i = 0; i < cnt; i++) { char *h = hex_of_limbs(ii[i], size, 0); o += sprintf(js + o, "%s\"%s\"", i ? "," : "", h); free(h); } js[o++] = ']'; js[o] = 0; return js;
+}
+static void res_canon(mp_ptr p, mp_size_t L, int c) {
+  static const int sels[] = {7, 7, 7, 12, 16, 17, 18, 7};
+  res_fill(p, L, sels[c % 8]); if (c % 8 == 1) { rnd_limbs(p, L, 3); p[L] = 0; } if (c % 8 == 2) { rnd_limbs(p, L, 5); p[L] = 0; }
+}
+enum { XF_FFT, XF_IFFT, XF_TRUNC, XF_ITRUNC, XF_NEGA, XF_INEGA, XF_RT, XF_RTTRUNC, XF_RTNEGA };
+static void ev_xform(int which, int depth, mp_size_t w, mp_size_t trunc, int csel) {
+  static const char *nm[] = {"mpir_fft_radix2", "mpir_ifft_radix2", "mpir_fft_trunc", "mpir_ifft_trunc", "mpir_fft_negacyclic", "mpir_ifft_negacyclic",
+                             "mpir_fft_radix2+mpir_ifft_radix2", "mpir_fft_trunc+mpir_ifft_trunc", "mpir_fft_negacyclic+mpir_ifft_negacyclic"};
+  mp_size_t n = (mp_size_t)1 << depth, L = n * w / 64, size = L + 1; long cnt = 2 * n, i, lc;
+  mp_ptr base = gb_get(0, cnt * size, 1), t1 = gb_get(1, size, 1), t2 = gb_get(2, size, 0), tmp = gb_get(3, size, 1); mp_ptr *ii = malloc(cnt * sizeof(mp_ptr)); char *js;
+  int kindf = which == XF_FFT || which == XF_IFFT || which == XF_RT ? 0 : which == XF_TRUNC || which == XF_ITRUNC || which == XF_RTTRUNC ? 1 : 2;
+  for (i = 0; i < cnt; i++) { ii[i] = base + i * size; res_canon(ii[i], L, csel == 0 ? (int)rnd_below(3) : csel == 1 ? (int)rnd_below(8) : csel + (int)i); }
+  gb_fill(t1, size); gb_fill(t2, size); gb_fill(tmp, size);
+  if (which == XF_IFFT || which == XF_ITRUNC || which == XF_INEGA) {   /* the inverse alone: its input is what the forward transform delivers (computed here, logged as input) */
+    if (kindf == 0) mpir_fft_radix2(ii, n, w, &t1, &t2); else if (kindf == 1) mpir_fft_trunc(ii, n, w, &t1, &t2, trunc); else mpir_fft_negacyclic(ii, n, w, &t1, &t2, &tmp); }
+  lc = kindf == 1 && which != XF_TRUNC ? trunc : cnt;                  /* mpir_fft_trunc reads all 2n entries' storage but must ignore those from trunc on (t-fft_ifft_trunc.c fills them with random data) */
+  fn_begin(nm[which]); js = arr_json(ii, lc, size); fn_in_raw("c", js); free(js); fn_in_int("depth", depth); fn_in_int("n", n); fn_in_int("w", w); fn_in_int("limbs", L); if (kindf == 1) fn_in_int("trunc", trunc);
+  fn_mid();
+  switch (which) {
+  case XF_FFT: mpir_fft_radix2(ii, n, w, &t1, &t2); break;
+  case XF_IFFT: mpir_ifft_radix2(ii, n, w, &t1, &t2); break;
+  case XF_TRUNC: mpir_fft_trunc(ii, n, w, &t1, &t2, trunc); break;
+  case XF_ITRUNC: mpir_ifft_trunc(ii, n, w, &t1, &t2, trunc); break;
+  case XF_NEGA: mpir_fft_negacyclic(ii, n, w, &t1, &t2, &tmp); break;
+  case XF_INEGA: mpir_ifft_negacyclic(ii, n, w, &t1, &t2, &tmp); break;
+  case XF_RT: mpir_fft_radix2(ii, n, w, &t1, &t2); mpir_ifft_radix2(ii, n, w, &t1, &t2); break;
+  case XF_RTTRUNC: mpir_fft_trunc(ii, n, w, &t1, &t2, trunc); mpir_ifft_trunc(ii, n, w, &t1, &t2, trunc); break;
+  default: mpir_fft_negacyclic(ii, n, w, &t1, &t2, &tmp); mpir_ifft_negacyclic(ii, n, w, &t1, &t2, &tmp); break; }
+  js = arr_json(ii, kindf == 1 ? trunc : cnt, size); fn_out_raw("r", js); free(js); fn_end(); free(ii);
+}
+static void ev_split(mp_size_t total, mp_bitcnt_t bits, int kind, int place) {
+  mp_size_t out = (2 * bits - 1) / 64 + 1, size = out + 1; long len = (64 * total - 1) / bits + 1, i, ret;      /* as tests/fft/t-split_combine_bits.c: "limbs = (2*bits - 1)/GMP_LIMB_BITS + 1" */
+  mp_ptr x = gb_get(0, total, place), base = gb_get(1, len * size, 1), res = gb_get(2, total, place); mp_ptr *poly = malloc(len * sizeof(mp_ptr)); char *js;
+  rnd_limbs(x, total, kind); for (i = 0; i < len; i++) poly[i] = base + i * size; gb_fill(base, len * size);
+  fn_begin("mpir_fft_split_bits"); fn_in_limbs("x", x, total); fn_in_int("total", total); fn_in_int("bits", (long)bits); fn_in_int("out", out); fn_mid();
+  ret = mpir_fft_split_bits(poly, x, total, bits, out); fn_out_int("len", ret); js = arr_json(poly, len, size); fn_out_raw("c", js); fn_end();
+  for (i = 0; i < total; i++) res[i] = 0;                          /* combine ADDS into the result area ("mpn_add(res + skip, res + skip, ...)": the callers clear it first) */
+  fn_begin("mpir_fft_combine_bits"); fn_in_raw("c", js); free(js); fn_in_int("len", len); fn_in_int("total", total); fn_in_int("bits", (long)bits); fn_in_int("out", out); fn_mid();
+  mpir_fft_combine_bits(res, poly, len, bits, out, total); fn_out_limbs("r", res, total); fn_end();
+  /* coefficients as large as a product's: anything below B^out with a zero top limb */
+  for (i = 0; i < len; i++) { rnd_limbs(poly[i], out, (kind + (int)i) % NKINDS); poly[i][out] = 0; } for (i = 0; i < total; i++) res[i] = 0;
+  js = arr_json(poly, len, size); fn_begin("mpir_fft_combine_bits"); fn_in_raw("c", js); free(js); fn_in_int("len", len); fn_in_int("total", total); fn_in_int("bits", (long)bits); fn_in_int("out", out); fn_mid();
+  mpir_fft_combine_bits(res, poly, len, bits, out, total); fn_out_limbs("r", res, total); fn_end(); free(poly);
+}
+void drv_k4_fft(int tier, unsigned long seed, const char *extra) {
+  shard_t sh = shard_parse(extra); long x = 0; int depth, m, cs, k;
+  if (sh.pure) return;
+  /* small depths: the transform is checked against the DFT definition */
+  for (depth = 0; depth <= (tier ? 5 : 4); depth++) for (m = 1; m <= (tier ? 5 : 3); m++) {
+    mp_size_t n = (mp_size_t)1 << depth, w = 64 * m / n; if (w * n != 64 * m) continue;
+    x++; if (!MINE(sh, x)) continue;
+    rec_reset("k4_fft", x, seed);
+    for (cs = 0; cs < 3; cs++) {
+      ev_xform(XF_FFT, depth, w, 0, cs); ev_xform(XF_IFFT, depth, w, 0, cs);
+      if (depth >= 1) { ev_xform(XF_NEGA, depth, w, 0, cs); ev_xform(XF_INEGA, depth, w, 0, cs); }
+      for (k = 1; k <= n; k++) { if (n > 4 && k != 1 && k != n && k != n / 2 && k != n / 2 + 1 && k != (mp_size_t)(1 + rnd_below(n))) continue;
+        ev_xform(XF_TRUNC, depth, w, 2 * k, cs); ev_xform(XF_ITRUNC, depth, w, 2 * k, cs); }
+    }
+  }
+  /* odd w (the sqrt2 twiddles of the negacyclic transform) needs n = 64: definition check on 128 points, once per w */
+  for (m = 1; m <= 3; m += 2) { x++; if (!MINE(sh, x)) continue; rec_reset("k4_fft", x, seed); ev_xform(XF_NEGA, 6, m, 0, 1); ev_xform(XF_INEGA, 6, m, 0, 1); }
+  /* larger depths (those of the tests: depth 6.., w 1..5): inverse(forward(x)) = 2n * x per coefficient */
+  for (depth = 5; depth <= (tier ? 9 : 7); depth++) for (m = 1; m <= (tier ? 5 : 3); m++) {
+    mp_size_t n = (mp_size_t)1 << depth, w = m; if ((w * n) % 64) continue;
+    x++; if (!MINE(sh, x)) continue;
+    rec_reset("k4_fft", x, seed);
+    ev_xform(XF_RT, depth, w, 0, 1); ev_xform(XF_RTNEGA, depth, w, 0, 1);
+    for (k = 0; k < 3; k++) ev_xform(XF_RTTRUNC, depth, w, 2 * (1 + (mp_size_t)rnd_below(n)), k);
+    ev_xform(XF_RTTRUNC, depth, w, 2 * n, 2); ev_xform(XF_RTTRUNC, depth, w, 2, 2); ev_xform(XF_RTTRUNC, depth, w, n, 1); ev_xform(XF_RTTRUNC, depth, w, n + 2, 1);
+  }
+  /* split / combine: bit widths 1..200 as the test, plus multiples of 64 (the limb-aligned paths) */
+  { static const int tots[] = {1, 2, 3, 7, 20, 64, 333, 1000}; int t, b;
+    for (t = 0; t < 8; t++) { x++; if (!MINE(sh, x)) continue; rec_reset("k4_fft", x, seed);
+      for (b = 1; b <= 260; b += (tots[t] > 100 ? 37 : tier ? 1 : 7)) { if (tots[t] * 64 / b > (tier ? 3000 : 300)) continue; ev_split(tots[t], b, (t + b) % NKINDS, b & 1); }
+      ev_split(tots[t], 64, 1, 0); ev_split(tots[t], 128, 0, 1); ev_split(tots[t], 192, 3, 0); ev_split(tots[t], 63, 1, 1); ev_split(tots[t], 65, 1, 0); }
+  }
+}
